@@ -151,7 +151,7 @@ def use_from_pattern(rng, p):
 
     def seq(xs):
         if xs and xs[-1] == ELL:
-            return [one(y) for y in xs[:-2]] + [one(xs[-2]) for _ in range(rng.randint(1, 3))]
+            return [one(y) for y in xs[:-2]] + [one(xs[-2]) for _ in range(rng.randint(1, 3) if rng.random() > 0.04 else rng.choice([20, 60]))]
         return [one(y) for y in xs]
     return seq(p)
 
@@ -306,7 +306,7 @@ def run(tier, seed):
         rulesets.append(([(pa, template_for(pa, 0, rng)), (pb, template_for(pb, 1, rng))], us))
     # ---------------- (b) random larger rule sets, uses derived from the patterns and mutated
     for _ in range(1200 if tier == "quick" else core.share(25000)):
-        k = rng.randint(1, 5)
+        k = rng.randint(1, 5) if rng.random() > 0.03 else rng.choice([12, 20])
         rules = []
         for i in range(k):
             p = realize(rand_pattern(rng, rng.randint(1, 3), top=True), [0])
